@@ -110,11 +110,16 @@ def check(ctx):
            "the salt stored differs from the salt mixed into the hash")
     # text encoding agrees
     def encodes(fn):
+        """every transformation applied to the plaintext variable (method calls on it, calls taking it, re-assignments)"""
         out = []
         for x in ast.walk(fn.node):
-            if isinstance(x, ast.Call) and isinstance(x.func, ast.Attribute) and x.func.attr == "encode" and isinstance(x.func.value, ast.Name) \
-                    and "plain" in x.func.value.id:
-                out.append(tuple(ast.unparse(a) for a in x.args) + tuple("%s=%s" % (k.arg, ast.unparse(k.value)) for k in x.keywords))
+            if isinstance(x, ast.Assign) and any(isinstance(t, ast.Name) and "plain" in t.id for t in x.targets):
+                v = x.value
+                if isinstance(v, ast.Call) and isinstance(v.func, ast.Attribute) and v.func.attr == "encode" and isinstance(v.func.value, ast.Name) \
+                        and "plain" in v.func.value.id:
+                    out.append(tuple(ast.unparse(a) for a in v.args) + tuple("%s=%s" % (k.arg, ast.unparse(k.value)) for k in v.keywords))
+                else:
+                    out.append(("transform", ast.unparse(v)[:60]))
         return sorted(out)
     e1, e2 = encodes(create), encodes(challenge)
     ctx.ob("hash-input.encoding", challenge, "str plaintext encoded identically", e1 == e2 and len(e1) == 1,
@@ -154,6 +159,11 @@ def check(ctx):
             oks = s is None or all(k == "param" for k, _ in value_sources(h, s, n))
             ctx.ob("salt.forwarded-unchanged", h, n.ast, oks, "_hash hands its (default None) salt on unchanged" if oks else
                    "_hash supplies a salt of its own", node=n)
+            p0 = n.ast.args[0] if n.ast.args else kws.get("plaintext")
+            okp = p0 is not None and all(k == "param" for k, _ in value_sources(h, p0, n))
+            ctx.ob("plaintext.forwarded-unchanged", h, n.ast, okp, "_hash hands the plaintext on unchanged (what is hashed is what challenge() will be given)" if okp else
+                   "_hash transforms the plaintext before hashing it (%s) but DigestValue.challenge does not: the assigned secret no longer verifies"
+                   % ", ".join(ast.unparse(pl)[:40] for k, pl in value_sources(h, p0, n) if k == "expr"), node=n)
             a1 = kws.get("algorithm") or (n.ast.args[1] if len(n.ast.args) > 1 else None)
             oka = isinstance(a1, ast.Attribute) and a1.attr == "algorithm"
             ctx.ob("algorithm.of-field", h, n.ast, oka, "hashes with the field's algorithm" if oka else "does not hash with the field's algorithm", node=n)
@@ -209,14 +219,18 @@ def check(ctx):
             names = [ast.unparse(a) for a in v.args]
             oko = len(names) == 3 and "salt" in names[0] and "digest" in names[1] and "algorithm" in names[2]
             ctx.ob("codec.component-order", tp, v, oko, "DigestValue(salt, digest, algorithm)" if oko else "components rebuilt in the wrong order: %s" % names, node=r)
-    # plaintext in a file is hashed
-    okh = False
+    # plaintext in a file is hashed: every return taken for a str value is self._hash(value)
+    str_rets = []
     for r in returns_of(an, tp):
         if any(tr and isinstance(t.ast, ast.Call) and ast.unparse(t.ast.func) == "isinstance" and "str" in ast.unparse(t.ast.args[1])
                for t, tr in dominating_guards(an, tp, r)):
-            okh = isinstance(r.ast.value, ast.Call) and h in an.callees(tp, an.cfg(tp).nodes_for(r.ast.value)[0])
-    ctx.ob("load.plaintext-hashed", tp, "str -> self._hash(value)", okh, "a plaintext written by hand is hashed on load" if okh else
-           "a plaintext string in a file is not hashed on load")
+            str_rets.append(r)
+    okh = bool(str_rets) and all(isinstance(r.ast.value, ast.Call) and an.cfg(tp).nodes_for(r.ast.value) and
+                                  h in an.callees(tp, an.cfg(tp).nodes_for(r.ast.value)[0]) for r in str_rets)
+    bad = [r for r in str_rets if not (isinstance(r.ast.value, ast.Call) and an.cfg(tp).nodes_for(r.ast.value)
+                                      and h in an.callees(tp, an.cfg(tp).nodes_for(r.ast.value)[0]))]
+    ctx.ob("load.plaintext-hashed", tp, "str -> self._hash(value) on every path", okh, "a plaintext written by hand is always hashed on load" if okh else
+           "a plaintext string in a file can be kept/parsed instead of hashed: `%s`" % (ast.unparse(bad[0].ast) if bad else "no str branch"))
 
     # ---------------------------------------------------------------- C09.5 algorithm table
     try:
